@@ -319,7 +319,9 @@ def prepare_dump(data: IOData, allow_changes: bool, filename: str) -> IOData:
             "(pseudopotentials or ghost atoms).",
             filename,
         )
-    if data.charge is not None and abs(data.charge - np.round(data.charge)) > 1e-7:
+    # Use the tolerance with which the reader compares the charge and the occupation numbers.
+    nocc = 0 if data.mo.occs is None else len(data.mo.occs)
+    if data.charge is not None and abs(data.charge - np.round(data.charge)) > 1e-7 * (1 + nocc):
         raise PrepareDumpError("The Molekel format requires an integer charge.", filename)
     data = prepare_unrestricted_aminusb(data, allow_changes, filename, "Molekel")
     return prepare_segmented(data, False, allow_changes, filename, "Molekel")
